@@ -79,5 +79,19 @@ func directed() []dscript {
 		put(0, "k5", "v5", 1005), {Kind: "allow", N: 4}, {Kind: "mkrepl", Ts: 1006}, {Kind: "allow", N: 9},
 		put(1, "k7", "v7", 1007), {Kind: "allow", N: 9},
 	}})
+	// D11: the bytes of an attempt that failed after its tx-log append (cLogBuf full) are flushed by sync();
+	// further attempts (linking error: SetOffset only) do not remove them from the file; reopen reloads them
+	c = base(false, false, true)
+	c.MaxActive = 2
+	l = append(l, dscript{c, []*Step{
+		put(0, "k1", "v1", 1001), put(1, "k2", "v2", 1002), put(2, "k3", "v3", 1003), {Kind: "sync"},
+		put(0, "k4", "v4", 1004), put(1, "k5", "v5", 1005), {Kind: "reopen"}, {Kind: "allow", N: 9},
+		put(0, "k6", "v6", 1006), {Kind: "allow", N: 9},
+	}})
+	l = append(l, dscript{c, []*Step{
+		put(0, "k1", "v1", 1001), put(1, "k2", "v2", 1002), put(2, "k3", "v3", 1003),
+		put(0, "k4", "v4", 1004), {Kind: "sync"}, put(1, "k5", "v5", 1005), {Kind: "reopen"}, {Kind: "allow", N: 9},
+		put(0, "k6", "v6", 1006), {Kind: "allow", N: 9},
+	}})
 	return l
 }
